@@ -157,6 +157,10 @@ func classifySMF(b []byte) (v string) {
 			v = fmt.Sprintf("smf.Message % X is of %d concrete types", b, n)
 			return
 		}
+		if m.IsOneOf(append(append([]midi.Type{}, concreteMidi...), concreteMeta...)...) != (n > 0) || m.IsOneOf() {
+			v = fmt.Sprintf("smf.Message % X: IsOneOf disagrees with Is", b)
+			return
+		}
 		var ch, x, y, z, w, q uint8
 		var rel int16
 		var abs, u16 uint16
@@ -306,6 +310,7 @@ var fromReader = ev.NewCheck("C08", "reader-messages",
 	"rapid: byte-level generated valid files (C02 grammar, payloads <= 300) are read with smf.ReadFrom and every message of the result is classified; same oracle; non-trivial = file with at least one meta or sysex event",
 	func(t *rapid.T) FileCase {
 		o := gen.AllFreedoms
+		o.MaxAlien = 300
 		o.MaxPayload = 300
 		return FileCase{gen.File(t, o)}
 	},
